@@ -32,11 +32,15 @@ def strat_case(draw, tier):
     sc = [model_scale(m) for m in margins]
     a, b, kinds = [], [], []
     for k in range(d):
-        kind = draw(st.sampled_from(["pos", "neg", "straddle", "pos-inf", "neg-inf", "straddle-to-inf", "straddle-from-minus-inf"]))
+        kind = draw(st.sampled_from(["pos", "neg", "straddle", "pos-inf", "neg-inf", "straddle-to-inf", "straddle-from-minus-inf",
+                                     "tiny-pos", "tiny-neg"]))
         x = draw(_f(0.05, 3.0)) * sc[k]
+        if kind.startswith("tiny"):  # rectangles hugging an axis (very small grid steps)
+            x *= 10.0 ** -draw(st.integers(4, 10))
         y = x * draw(_f(1.2, 6.0))
         lo, hi = {"pos": (x, y), "neg": (-y, -x), "straddle": (-x, y), "pos-inf": (x, INF), "neg-inf": (-INF, -x),
-                  "straddle-to-inf": (-x, INF), "straddle-from-minus-inf": (-INF, y)}[kind]
+                  "straddle-to-inf": (-x, INF), "straddle-from-minus-inf": (-INF, y), "tiny-pos": (x, y),
+                  "tiny-neg": (-y, -x)}[kind]
         a.append(float(f"{lo:.6g}"))
         b.append(float(f"{hi:.6g}"))
         kinds.append(kind)
@@ -49,7 +53,12 @@ def strat_case(draw, tier):
     frac = draw(st.floats(0.1, 0.9))
     near_zero = draw(st.sampled_from([None, 1e-3, 1e-6, 1e-9, 1e-12]))
     idx = draw(st.sampled_from([None] + [list(c) for r in range(1, d) for c in itertools.combinations(range(d), r)]))
+    # the model is also truncated after construction (what a copula chain does to its working copy): window per margin
+    trunc = draw(st.sampled_from([None, "window"]))
+    if trunc is not None:
+        trunc = [[-float(f"{draw(_f(0.3, 4.0)) * s:.6g}"), float(f"{draw(_f(0.3, 4.0)) * s:.6g}")] for s in sc]
     return {"d": d, "margins": margins, "copula": cop, "a": a, "b": b, "kinds": kinds, "axis": axis, "frac": frac,
+            "truncate": trunc,
             "near_zero": near_zero, "idx": idx, "u": [draw(_f(0.05, 4.0)) * s * draw(st.sampled_from([-1, 1])) for s in sc]}
 
 
@@ -164,6 +173,32 @@ def body(case):
     fresh = build_copula_model({"margins": case["margins"], "copula": case["copula"]})
     if float(fresh.mass(a, b)) != m:
         out.append(Violation(f"{tag}/answer-depends-on-earlier-calls", f"{fresh.mass(a, b)!r} vs {m!r}; {detail}"))
+    # a model truncated after its construction is still a measure consistent with its own margins
+    if case.get("truncate"):
+        tm = build_copula_model({"margins": case["margins"], "copula": case["copula"]})
+        tm.mass(a, b)  # caches filled before the truncation
+        tm.truncate_levy_measure([tuple(t) for t in case["truncate"]])
+        mt = float(tm.mass(a, b))
+        gt = float(tm._mass_nd(list(a), list(b)))
+        if not math.isfinite(mt) or mt < -tol(mt) or abs(gt - mt) > tol(mt):
+            out.append(Violation(f"{tag}/truncated-after-construction/fast-path-differs-from-general-formula",
+                                 f"window {case['truncate']}: mass={mt!r} _mass_nd={gt!r}; {detail}"))
+        else:
+            # whole line in the other coordinates = the model's own margin (same tail integrals)
+            for i in range(d):
+                if a[i] < 0 < b[i]:
+                    continue
+                aa, bb = [-INF] * d, [INF] * d
+                aa[i], bb[i] = a[i], b[i]
+                whole = float(tm.mass(aa, bb))
+                own = float(tm.marginal_tail_integral(i, a[i] if a[i] > 0 else b[i])) - \
+                    (float(tm.marginal_tail_integral(i, b[i] if a[i] > 0 else a[i])) if math.isfinite(b[i] if a[i] > 0 else a[i]) else 0.0)
+                own = abs(own)
+                if abs(whole - own) > 1e-6 * own + 2e-8 * block + 1e-14:
+                    out.append(Violation(f"{tag}/truncated-after-construction/whole-line-mass-differs-from-own-margin",
+                                         f"window {case['truncate']}, margin {i} on [{a[i]},{b[i]}]: {whole!r} vs "
+                                         f"difference of the model's tail integrals {own!r}; {detail}"))
+                break
     # the copula's parameters are assignable: after an assignment the model held so far agrees with a freshly built one
     if case["copula"]["type"] == "clayton":
         new_c = {"type": "clayton", "theta": float(f"{1.7 * case['copula']['theta'] + 0.1:.6g}"), "eta": 1.0 - case["copula"]["eta"]}
@@ -179,7 +214,9 @@ def body(case):
 def classify(case):
     labels = [case["copula"]["type"], f"d={case['d']}"] + sorted(set(case["kinds"])) + \
              sorted({branch_of(m) for m in case["margins"]})
-    nt = any(k != "pos" and k != "neg" for k in case["kinds"]) or case["d"] == 3 or case["idx"] is not None
+    if case.get("truncate"):
+        labels.append("truncated-after-construction")
+    nt = any(k not in ("pos", "neg", "tiny-pos", "tiny-neg") for k in case["kinds"]) or case["d"] == 3 or case["idx"] is not None
     return labels, nt
 
 
